@@ -27,7 +27,7 @@ NAMES = ["x", "-", "target", "A-B", "A", "A->B", "f(r,A)", "A.atomic_mass", "y",
 VALUES = ["2.5", "LAMMPS", "as.zero"]
 
 TARGETS = {n: "_config_parser._RawConfigParser (default_section='Variables', ExtendedInterpolation) and every ConfigParser accessor" for n in
-           ("unused_variable", "two_unused_variables", "unused_variable_fs", "placeholder_value", "cross_section_placeholder", "nested_cross_section")}
+           ("unused_variable", "two_unused_variables", "unused_variable_fs", "placeholder_value", "cross_section_placeholder", "nested_cross_section", "placeholder_twice")}
 
 
 def make(base):
@@ -201,6 +201,75 @@ def _rp_nested(place, val, shadow, lib):
   return False, "nested placeholder equals substitution", "agree"
 
 
+_IDX = list(range(8))
+
+
+def _twice(place, v1, v2, cross):
+  """the same place-holder file parsed twice in one process with different values behind the place-holder:
+  each parse equals its own hand-substituted file"""
+  sec, key = PLACES[place]
+  out = []
+  for num in (NUMS[v1], NUMS[v2]):
+    tmpl = OD((s, OD(e)) for s, e in BASE.items())
+    subst = OD((s, OD(e)) for s, e in BASE.items())
+    if cross:
+      tmpl["Orphan"]["my value"] = num
+      subst["Orphan"]["my value"] = num
+      tmpl[sec][key] = TEMPLATES[sec].replace("${V}", "${Orphan:my value}")
+    else:
+      tmpl[sec][key] = TEMPLATES[sec].replace("${V}", "${my_variable}")
+      tmpl = with_vars(tmpl, [("my_variable", num)])
+    subst[sec][key] = TEMPLATES[sec].replace("${V}", num)
+    out.append((snapshot(make(tmpl)), snapshot(make(subst))))
+  return out
+
+
+def placeholder_twice(place: int, v1: int, v2: int, cross: bool) -> bool:
+  """
+  pre: 0 <= place < 7 and 0 <= v1 < 4 and 0 <= v2 < 4
+  post: _
+  """
+  place, v1, v2, cross = concrete(_IDX[place]), concrete(_IDX[v1]), concrete(_IDX[v2]), (True if cross else False)
+  with untraced():
+    return all(a == b for a, b in _twice(place, v1, v2, cross))
+
+
+def _rp_twice(place, v1, v2, cross):
+  sec, key = PLACES[place]
+  try:
+    res = _twice(place, v1, v2, bool(cross))
+  except Exception as e:  # noqa
+    return True, "place-holder file parsed twice: %s: %s" % (type(e).__name__, e), "twice-" + type(e).__name__
+  for which, (got, want) in zip(("first", "second"), res):
+    d = _diff(want, got)
+    if d:
+      return True, "[%s] %s holds a %s place-holder; the file is parsed with the value %s and then with %s in one process: the %s parse differs from its substituted file in %s" % (
+        sec, key, "${Orphan:my value}" if cross else "${my_variable}", NUMS[v1], NUMS[v2], which, d), "placeholder-%s-parse-differs" % which
+  return False, "both parses equal their substituted files", "agree"
+
+
+def _after_history(rp, val_pos):
+  """a counterexample that needs other files to have been read first (state kept between parses): the replay reads the same
+  model with the other values, then the reported one"""
+  def run(*a, **k):
+    import inspect
+    names = list(inspect.signature(rp).parameters)
+    args = list(a) + [k[n] for n in names[len(a):]]
+    r = rp(*args)
+    if r[0]:
+      return r
+    for other in range(len(NUMS)):
+      if other != args[val_pos]:
+        b = list(args)
+        b[val_pos] = other
+        rp(*b)
+    r = rp(*args)
+    if r[0]:
+      return True, r[1] + " (after the same model was read with other values in this process)", r[2] + "-after-other-files"
+    return r
+  return run
+
+
 # ---------------------------------------------------------------------------
 # replays on real text
 
@@ -263,7 +332,8 @@ REPLAY = dict(
   unused_variable=lambda name, val: _rp_unused(BASE, [(NAMES[name], VALUES[val])]),
   two_unused_variables=lambda n1, n2, val: _rp_unused(BASE, [(NAMES[n1], VALUES[val]), (NAMES[n2], "1.0")]),
   unused_variable_fs=lambda name, val: _rp_unused(FS_BASE, [(NAMES[name], VALUES[val])], fs=True),
-  placeholder_value=_rp_placeholder,
-  cross_section_placeholder=_rp_cross,
-  nested_cross_section=_rp_nested,
+  placeholder_value=_after_history(_rp_placeholder, 1),
+  cross_section_placeholder=_after_history(_rp_cross, 1),
+  nested_cross_section=_after_history(_rp_nested, 1),
+  placeholder_twice=_rp_twice,
 )
